@@ -103,7 +103,7 @@ pub fn run(ctx: &mut Ctx) {
     ctx.replay_regressions(check);
     let l = ctx.tier.pick(4, 5);
     exhaustive(ctx, &STD, l);
-    let n = ctx.tier.pick(20_000, 1_000_000);
+    let n = ctx.tier.pick(120_000, 1_000_000);
     let strat = || adversarial_events(40).prop_map(|e| events_to_input(&e));
     ctx.run_proptest("random-histories", &STD, n, strat(), check);
     ctx.run_proptest("capacity-groups", &crate::adapter::NONE, n / 4, crate::props::c18::capacity_histories(), check);
